@@ -23,6 +23,7 @@ def plans(prop, tier):
              prof(2, nops=n, pool=60, maxlen=3, alpha=3, mode="prefix", pput=45, prem=30, pget=25, pscan=0, piscan=0, pmem=0, pprobe=0, dumpevery=0),
              prof(3, nops=n + 300, pool=400, maxlen=2, alpha=8, mode="mix", pput=65, prem=10, pget=25, pscan=0, piscan=0, pmem=0, pprobe=0, dumpevery=0, psweep=25),
              prof(5, nops=1100, pool=700, maxlen=6, alpha=8, pput=70, prem=8, pget=20, pscan=0, piscan=0, pmem=0, pprobe=0, dumpevery=0, psweep=12),
+             prof(6, nops=n + 400, pool=160, maxlen=3, alpha=8, mode="deep", pput=65, prem=12, pget=23, pscan=0, piscan=0, pmem=0, pprobe=0, dumpevery=0, psweep=15),
              prof(4, nops=n, pool=25, maxlen=9, alpha=2, pput=40, prem=40, pget=20, pscan=0, piscan=0, pmem=0, pprobe=0, dumpevery=0, uniq=50)]
         M = ["MC_Tree_struct7.cfg"] if q else ["MC_Tree_struct7.cfg", "MC_Tree_struct8L.cfg", "MC_Tree_struct9S.cfg"]
     elif prop == "C03":
@@ -30,7 +31,8 @@ def plans(prop, tier):
         P = [prof(11, nops=n, pool=70, maxlen=3, alpha=3, pput=35, prem=15, pget=0, pscan=50, piscan=0, pmem=0, pprobe=0, dumpevery=0),
              prof(12, nops=n, pool=60, maxlen=3, alpha=3, mode="prefix", pput=35, prem=15, pget=0, pscan=50, piscan=0, pmem=0, pprobe=0, dumpevery=0),
              prof(13, nops=n, pool=120, maxlen=2, alpha=8, mode="mix", pput=35, prem=15, pget=0, pscan=50, piscan=0, pmem=0, pprobe=0, dumpevery=0),
-             prof(14, nops=n, pool=40, maxlen=10, alpha=2, pput=35, prem=15, pget=0, pscan=50, piscan=0, pmem=0, pprobe=0, dumpevery=0)]
+             prof(14, nops=n, pool=40, maxlen=10, alpha=2, pput=35, prem=15, pget=0, pscan=50, piscan=0, pmem=0, pprobe=0, dumpevery=0),
+             prof(15, nops=n + 300, pool=160, maxlen=3, alpha=8, mode="deep", pput=50, prem=8, pget=0, pscan=42, piscan=0, pmem=0, pprobe=0, dumpevery=0, prtl=35)]
         M = ["MC_Tree_scan5.cfg"] if q else ["MC_Tree_scan5.cfg", "MC_Tree_scan5b.cfg", "MC_Tree_scan6.cfg"]
     elif prop == "C05":
         on = ["C05", "M"]
@@ -39,6 +41,7 @@ def plans(prop, tier):
              prof(22, nops=m, pool=40, maxlen=2, alpha=3, mode="prefix", pput=25, prem=15, pget=15, pscan=30, piscan=15, pmem=0, pprobe=70, dumpevery=0),
              prof(23, nops=m, pool=60, maxlen=2, alpha=8, mode="mix", pput=25, prem=15, pget=15, pscan=30, piscan=15, pmem=0, pprobe=70, dumpevery=0),
              prof(24, nops=m, pool=40, maxlen=2, alpha=3, mode="linksonly", pput=30, prem=12, pget=13, pscan=30, piscan=15, pmem=0, pprobe=80, dumpevery=0),
+             prof(26, nops=m + 200, pool=120, maxlen=3, alpha=8, mode="deep", pput=45, prem=8, pget=10, pscan=25, piscan=12, pmem=0, pprobe=70, dumpevery=0),
              prof(25, nops=m, pool=60, maxlen=3, alpha=4, mode="linksonly", pput=30, prem=12, pget=13, pscan=30, piscan=15, pmem=0, pprobe=80, dumpevery=0)]
         M = ["MC_Tree_scan5.cfg"] if q else ["MC_Tree_scan5.cfg", "MC_Tree_scan5b.cfg", "MC_Tree_scan6.cfg"]
     elif prop == "C08":
@@ -49,6 +52,7 @@ def plans(prop, tier):
              prof(33, nops=m + 300, pool=400, maxlen=2, alpha=8, mode="mix", pput=85, prem=10, pget=0, pscan=0, piscan=0, pmem=5, pprobe=0, dumpevery=7, psweep=25),
              prof(35, nops=m + 300, pool=300, maxlen=3, alpha=4, pput=85, prem=10, pget=0, pscan=0, piscan=0, pmem=5, pprobe=0, dumpevery=7, psweep=25),
              prof(36, nops=1100, pool=700, maxlen=6, alpha=8, pput=85, prem=8, pget=0, pscan=0, piscan=0, pmem=2, pprobe=0, dumpevery=25, psweep=12),
+             prof(37, nops=m + 400, pool=160, maxlen=3, alpha=8, mode="deep", pput=75, prem=10, pget=0, pscan=0, piscan=0, pmem=3, pprobe=0, dumpevery=9, psweep=20),
              prof(34, nops=m, pool=30, maxlen=2, alpha=3, pput=50, prem=50, pget=0, pscan=0, piscan=0, pmem=0, pprobe=0, dumpevery=3)]
         M = ["MC_Tree_struct7.cfg"] if q else ["MC_Tree_struct7.cfg", "MC_Tree_struct8L.cfg", "MC_Tree_struct9S.cfg"]
     elif prop == "C10":
@@ -56,6 +60,7 @@ def plans(prop, tier):
         P = [prof(41, nops=n, pool=70, maxlen=3, alpha=3, pput=35, prem=15, pget=0, pscan=0, piscan=50, pmem=0, pprobe=0, dumpevery=0),
              prof(42, nops=n, pool=60, maxlen=3, alpha=3, mode="prefix", pput=35, prem=15, pget=0, pscan=0, piscan=50, pmem=0, pprobe=0, dumpevery=0),
              prof(43, nops=n, pool=120, maxlen=2, alpha=8, mode="mix", pput=35, prem=15, pget=0, pscan=0, piscan=50, pmem=0, pprobe=0, dumpevery=0),
+             prof(47, nops=n + 300, pool=160, maxlen=3, alpha=8, mode="deep", pput=50, prem=8, pget=0, pscan=0, piscan=42, pmem=0, pprobe=0, dumpevery=0, pmod=30),
              # cursor paused by the caller, a write (often into the node under the cursor, with and without early_abort), cursor resumed
              prof(44, nops=n, pool=60, maxlen=3, alpha=3, mode="prefix", pput=40, prem=12, pget=0, pscan=0, piscan=48, pmem=0, pprobe=0, dumpevery=0, pmod=60),
              prof(45, nops=n, pool=90, maxlen=3, alpha=3, pput=40, prem=12, pget=0, pscan=0, piscan=48, pmem=0, pprobe=0, dumpevery=0, pmod=60),
@@ -66,14 +71,16 @@ def plans(prop, tier):
         m = 250 if q else 700
         P = [prof(51, nops=m, pool=120, maxlen=3, alpha=3, pput=75, prem=25, pget=0, pscan=0, piscan=0, pmem=0, pprobe=0, dumpall=1, legacy=15),
              prof(52, nops=m, pool=80, maxlen=3, alpha=3, mode="prefix", pput=75, prem=25, pget=0, pscan=0, piscan=0, pmem=0, pprobe=0, dumpall=1, legacy=15),
-             prof(53, nops=m, pool=300, maxlen=2, alpha=8, mode="mix", pput=80, prem=20, pget=0, pscan=0, piscan=0, pmem=0, pprobe=0, dumpall=1, legacy=15)]
+             prof(53, nops=m, pool=300, maxlen=2, alpha=8, mode="mix", pput=80, prem=20, pget=0, pscan=0, piscan=0, pmem=0, pprobe=0, dumpall=1, legacy=15),
+             prof(54, nops=m + 100, pool=160, maxlen=3, alpha=8, mode="deep", pput=85, prem=15, pget=0, pscan=0, piscan=0, pmem=0, pprobe=0, dumpall=1, legacy=10, psweep=15)]
         M = ["MC_Tree_struct7.cfg"] if q else ["MC_Tree_struct7.cfg", "MC_Tree_struct8L.cfg", "MC_Tree_struct9S.cfg"]
     elif prop == "C20":
         on = ["C20"]
         m = 300 if q else 800
         P = [prof(61, nops=m, pool=150, maxlen=3, alpha=3, pput=60, prem=10, pget=0, pscan=0, piscan=0, pmem=30, pprobe=0, dumpevery=0),
              prof(62, nops=m, pool=80, maxlen=3, alpha=3, mode="prefix", pput=55, prem=20, pget=0, pscan=0, piscan=0, pmem=25, pprobe=0, dumpevery=0),
-             prof(63, nops=m, pool=300, maxlen=2, alpha=8, mode="mix", pput=60, prem=15, pget=0, pscan=0, piscan=0, pmem=25, pprobe=0, dumpevery=0)]
+             prof(63, nops=m, pool=300, maxlen=2, alpha=8, mode="mix", pput=60, prem=15, pget=0, pscan=0, piscan=0, pmem=25, pprobe=0, dumpevery=0),
+             prof(64, nops=m, pool=160, maxlen=3, alpha=8, mode="deep", pput=65, prem=12, pget=0, pscan=0, piscan=0, pmem=23, pprobe=0, dumpevery=0)]
         M = ["MC_Tree_struct7.cfg"]
     else:
         raise KeyError(prop)
